@@ -175,12 +175,13 @@ pub fn generate(profile: &str, seed: u64, index: u64) -> NScenario {
     classes.push(format!("base{bc}"));
     let tpages = 3u64;
     arenas.push((base, tpages));
-    let oc = rng.below(6);
+    let oc = rng.below(7);
     let off = match oc {
         0 => 0,
         1 => 1 + rng.below(15),
         2 => PS - 16 + rng.below(5),        // ends inside the page / just touching
         3 => PS - 4 + rng.below(4),         // the 5-byte jump spans two pages
+        6 => PS - 8 + rng.below(4),         // the jump fits, an 8-byte access at the entry would not
         4 => rng.below(PS - 64),
         _ => rng.below(PS / 16) * 16,
     };
@@ -426,7 +427,7 @@ pub fn generate(profile: &str, seed: u64, index: u64) -> NScenario {
             let fault = if profile == "C11" && rng.chance(1, 6) {
                 "enomem"
             } else if rng.chance(1, 25) {
-                *rng.pick(&["enomem", "mprotect", "enomem_transient", "enomem_transient"])
+                *rng.pick(&["enomem", "mprotect", "enomem_transient", "enomem_transient", "mprotect_second_page"])
             } else {
                 ""
             };
@@ -757,6 +758,14 @@ impl<'a> Run<'a> {
         match op.fault.as_str() {
             "enomem" => f.enomem_all = true,
             "enomem_transient" => f.enomem_first = 1 + (op.fake as u64 % 5),
+            "mprotect_second_page" => {
+                // the page after the one holding the first entry byte can never be made writable
+                let a = self.target_addr(t);
+                let second = (a & !(PS - 1)) + PS;
+                if second < a + 5 && self.model.iter().all(|m| m.is_empty()) {
+                    f.mprotect_deny = Some((second, second + PS));
+                }
+            }
             "mprotect" => f.mprotect_fail_next = true,
             _ => {}
         }
@@ -791,14 +800,29 @@ impl<'a> Run<'a> {
         let f2 = findings.clone();
         let obs_n: std::rc::Rc<std::cell::Cell<u64>> = Default::default();
         let obs_n2 = obs_n.clone();
+        let by: Vec<(u64, u32)> = self.sc.bystanders.iter().map(|b| self.sc.funcs[*b]).collect();
+        let sh_ptr = self.sh as *const Shared as usize;
+        let (lt_n, oi_n) = (lt as u64, oi as u64);
         interpose::set_observer(Some(Box::new(move |point| {
+            let sh = unsafe { &*(sh_ptr as *const Shared) };
             for (kind, idx, addr, allowed) in &watch {
+                sh.note(PH_OBSERVER, lt_n, oi_n, 0);
                 let g = if kind == "synth" { arena::call_u32(*addr) } else { real_target_call(*idx) };
                 obs_n2.set(obs_n2.get() + 1);
                 if !allowed.iter().any(|(v, m)| g & m == v & m) {
                     f2.borrow_mut().push(format!("at the {point} boundary a call of the function at {:#x} from another thread returned {:#x}; allowed (value, mask) {:x?}", addr, g, allowed));
                 }
             }
+            // functions that were never named keep running their own code at every instant
+            for (a, id) in &by {
+                sh.note(PH_OBSERVER, lt_n, oi_n, 1);
+                let g = arena::call_u32(*a);
+                obs_n2.set(obs_n2.get() + 1);
+                if g != *id {
+                    f2.borrow_mut().push(format!("at the {point} boundary the un-named neighbour at {:#x} returned {:#x} instead of {:#x}", a, g, id));
+                }
+            }
+            sh.note(PH_INSTALL, lt_n, oi_n, 0);
         })));
         interpose::arm(true);
         let r = catch_unwind(AssertUnwindSafe(|| unsafe {
@@ -1125,6 +1149,13 @@ pub fn signal_violation(sig: i32, sh: &Shared) -> Value {
             PH_CALL_LIVE => ("call-while-faked", vec!["C01"]),
             PH_DROP => ("scope-exit", vec!["C02"]),
             PH_CALL_AFTER => ("call-after-scope-exit", if extra == 1 { vec!["C02", "C05"] } else { vec!["C02"] }),
+            PH_OBSERVER => {
+                if extra == 1 {
+                    ("call-of-an-un-named-neighbour-during-an-installation", vec!["C03"])
+                } else {
+                    ("call-from-another-thread-during-an-installation", vec!["C01", "C02", "C03"])
+                }
+            }
             PH_SETUP => ("setup", vec![]),
             _ => ("call-of-unfaked-function", vec!["C03", "C02"]),
         }
